@@ -73,11 +73,12 @@ Proof. vm_compute. reflexivity. Qed.
 
 (* ---- back end: compile correctness on the models that are compared with the implementation on every run ----
 
-   Fragment (model/ScalarFrag.v, model/VarProg.v): programs over top-level variables - any number of declarations
-   `x := e`, assignments `x = e`, `x += e` (also `-=` `*=` `/=`), `x++`, `x--`, expression statements, conditionals `if c { ... } else { ... }` / `if c { ... }` and condition loops
-   `for c { ... }` (with `break` and `continue`) whose blocks are again lists of assignments, expression statements,
-   conditionals and loops, nested to any depth -, whose expressions are built from integer / boolean / nil / string literals, variables declared
-   earlier, prefix - and !, the arithmetic and comparison operators (on integers and strings), short-circuit && and
+   Fragment (model/ScalarFrag.v, model/VarProg.v): programs over variables - any number of declarations
+   `x := e`, at the top level and inside blocks (a variable declared in a block is visible until the block ends; the
+   compiler gives the d-th declaration of the program text the global slot d), assignments `x = e`, `x += e` (also `-=` `*=` `/=`), `x++`, `x--`, expression statements, conditionals `if c { ... } else { ... }` / `if c { ... }` and condition loops
+   `for c { ... }` (with `break` and `continue`) whose blocks are again lists of declarations, assignments, expression statements,
+   conditionals and loops, nested to any depth -, whose expressions are built from integer / boolean / nil / string literals, variables visible
+   at that point, prefix - and !, the arithmetic and comparison operators (on integers and strings), short-circuit && and
    ||, and the conditional, at any nesting.  For the fragment, the emitted code ([cexp], [pcode]) and the source-level
    result ([sev], [run_stmts]) are pure functions; loops make the latter a fuelled function (None = not enough fuel;
    a program that ends does so for some fuel), and:
@@ -108,9 +109,9 @@ Proof. vm_compute. reflexivity. Qed.
    branch, loop and loop body) are characterised by an invariant in proofs/VarCompileProofs.v and play no role at run time *)
 Require Import RV.proofs.VarCompileProofs.
 Theorem C01_back_compile_program : forall names, NoDup names -> forall l f,
-  l <> nil -> ndecls l <= List.length names -> wf_stmts true false 0 l = true -> max_height l <= f ->
-  exists tabs, compile_program (S f) nil (embed_stmts names 0 l) =
-               inr (Code main_id main_id false 0 (fst (pcode 0 0 l)) (snd (pcode 0 0 l)) nil nil nil, tabs).
+  l <> nil -> ndecls l <= List.length names -> wf_stmts false 0 l = true -> max_height l <= f ->
+  exists tabs, compile_program (S f) nil (embed_stmts names 0 nil l) =
+               inr (Code main_id main_id false 0 (fst (pcode l)) (snd (pcode l)) nil nil nil, tabs).
 Proof. exact compile_var_program. Qed.
 
 (* (2) expressions: [env_ok] says that the environment binds the variables and the store holds their values rho *)
@@ -123,9 +124,9 @@ Proof. exact sem_scalar. Qed.
 (* (2) whole programs: whenever the source-level run ends with fuel n, Sem.run with any larger fuel gives its result *)
 Require Import RV.proofs.VarSemProofs.
 Theorem C01_back_sem_program : forall names, NoDup names -> Forall (fun nm => nm <> nil) names -> forall l n f r,
-  wf_stmts true false 0 l = true -> (ndecls l <= List.length names)%nat -> (max_height l <= f)%nat -> (n <= f)%nat ->
+  wf_stmts false 0 l = true -> (ndecls l <= List.length names)%nat -> (max_height l <= f)%nat -> (n <= f)%nat ->
   run_stmts n nil l ScalarFrag.VNil = Some r ->
-  fst (Sem.run (S f) (embed_stmts names 0 l)) = lift_top r.
+  fst (Sem.run (S f) (embed_stmts names 0 nil l)) = lift_top r.
 Proof. exact sem_var_program. Qed.
 
 (* (3) expressions: inside ANY code object, at ANY position, under ANY stack with room for it; [globals_ok s rho] says
@@ -151,10 +152,10 @@ Proof. exact vm_scalar. Qed.
    symbol tables, returns the value / stops with the error class of the source-level run; k + 1 = instructions executed *)
 Require Import RV.proofs.EndToEndVars.
 Theorem C01_back_vm_program : forall l tabs ng n r,
-  l <> nil -> wf_stmts true false 0 l = true -> (ndecls l <= ng)%nat -> (max_need l <= MAXSTACK)%nat ->
+  l <> nil -> wf_stmts false 0 l = true -> (ndecls l <= ng)%nat -> (max_need l <= MAXSTACK)%nat ->
   run_stmts n nil l ScalarFrag.VNil = Some r ->
   exists k s', forall f,
-    VM.run (k + S f) (Code main_id main_id false 0 (fst (pcode 0 0 l)) (snd (pcode 0 0 l)) nil nil nil) tabs ng nil =
+    VM.run (k + S f) (Code main_id main_id false 0 (fst (pcode l)) (snd (pcode l)) nil nil nil) tabs ng nil =
     match top_result r with
     | inl v => RVal (VMScalarProofs.inj v) s'
     | inr x => RErr (cls x) s'
@@ -162,19 +163,19 @@ Theorem C01_back_vm_program : forall l tabs ng n r,
 Proof. exact run_var_program. Qed.
 
 (* (4) Assembled.  [agree_on x] relates an outcome of Sem and a result of the VM with the source-level outcome x: the
-   same scalar, or the same error class.  The hypotheses are the fragment's side conditions: variables are used after
-   their declaration and declared at the top level (wf_stmts), there are enough distinct, non-empty names, every
+   same scalar, or the same error class.  The hypotheses are the fragment's side conditions: variables are used while
+   they are visible and break / continue occur only inside loops (wf_stmts), there are enough distinct, non-empty names, every
    expression fits the VM's 1024 operand slots (the bound is real: deeper operand nesting overflows the
    implementation's stack as well), the VM has a global slot for every variable, and the program ends
    (run_stmts returns with some fuel n; both machines are then given at least that much).
    compile_program, VM.run and Sem.run are the very functions that are extracted and compared with the real compiler
    and VM on every run. *)
 Theorem C01_var_programs : forall names, NoDup names -> Forall (fun nm => nm <> nil) names -> forall l n r,
-  l <> nil -> wf_stmts true false 0 l = true -> (ndecls l <= List.length names)%nat -> (max_need l <= MAXSTACK)%nat ->
+  l <> nil -> wf_stmts false 0 l = true -> (ndecls l <= List.length names)%nat -> (max_need l <= MAXSTACK)%nat ->
   run_stmts n nil l ScalarFrag.VNil = Some r ->
-  exists c tabs, compile_program (S (max_height l)) nil (embed_stmts names 0 l) = inr (c, tabs) /\
+  exists c tabs, compile_program (S (max_height l)) nil (embed_stmts names 0 nil l) = inr (c, tabs) /\
   forall ng, (ndecls l <= ng)%nat -> exists k, forall f fs, (max_height l < fs)%nat -> (n < fs)%nat ->
-    agree_on (top_result r) (fst (Sem.run fs (embed_stmts names 0 l))) (VM.run (k + S f) c tabs ng nil).
+    agree_on (top_result r) (fst (Sem.run fs (embed_stmts names 0 nil l))) (VM.run (k + S f) c tabs ng nil).
 Proof. exact var_programs_end_to_end. Qed.
 
 (* Non-vacuity: a := 7; b := a * 2; if b > 10 { a = b - 15; a } else { b = 0 }; a < 0 ? 1 / a : b     (= -1) *)
@@ -184,12 +185,12 @@ Definition ex_prog : list stmt :=
    SIf (SBin CGt (SVar 1) (SInt 10)) (SSet 0 (SBin BSub (SVar 1) (SInt 15)) :: SExpr (SVar 0) :: nil) (SSet 1 (SInt 0) :: nil) ::
    SExpr (STern (SBin CLt (SVar 0) (SInt 0)) (SBin BDiv (SInt 1) (SVar 0)) (SVar 1)) :: nil)%list.
 Example C01_var_program_example :
-  wf_stmts true false 0 ex_prog = true /\ ndecls ex_prog = 2%nat /\
+  wf_stmts false 0 ex_prog = true /\ ndecls ex_prog = 2%nat /\
   option_map top_result (run_stmts 3 nil ex_prog ScalarFrag.VNil) = Some (inl (ScalarFrag.VInt (-1))) /\
-  match compile_program 10 nil (embed_stmts ex_names 0 ex_prog) with
+  match compile_program 10 nil (embed_stmts ex_names 0 nil ex_prog) with
   | inr (c, tabs) => match VM.run 200 c tabs 2 nil with RVal (VM.VInt z) _ => z = (-1)%Z | _ => False end
   | inl _ => False
-  end /\ fst (Sem.run 10 (embed_stmts ex_names 0 ex_prog)) = Sem.OVal (Sem.VInt (-1)).
+  end /\ fst (Sem.run 10 (embed_stmts ex_names 0 nil ex_prog)) = Sem.OVal (Sem.VInt (-1)).
 Proof.
   split; [vm_compute; reflexivity|]. split; [vm_compute; reflexivity|]. split; [vm_compute; reflexivity|].
   split; vm_compute; reflexivity.
@@ -201,12 +202,12 @@ Definition ex_sprog : list stmt :=
    SIf (SBin CGt (SVar 1) (SVar 0)) (SSet 0 (SBin BAdd (SVar 1) (SVar 1)) :: nil) (SSet 0 (SStr nil) :: nil) ::
    SExpr (STern (SBin CEq (SVar 0) (SStr (97 :: 98 :: 99 :: 97 :: 98 :: 99 :: nil)%N)) (SVar 1) (SInt 0)) :: nil)%list.
 Example C01_var_program_string_example :
-  wf_stmts true false 0 ex_sprog = true /\
+  wf_stmts false 0 ex_sprog = true /\
   option_map top_result (run_stmts 3 nil ex_sprog ScalarFrag.VNil) = Some (inl (ScalarFrag.VStr (97 :: 98 :: 99 :: nil)%N)) /\
-  match compile_program 10 nil (embed_stmts ex_names 0 ex_sprog) with
+  match compile_program 10 nil (embed_stmts ex_names 0 nil ex_sprog) with
   | inr (c, tabs) => match VM.run 200 c tabs 2 nil with RVal (VM.VStr z) _ => z = (97 :: 98 :: 99 :: nil)%N | _ => False end
   | inl _ => False
-  end /\ fst (Sem.run 10 (embed_stmts ex_names 0 ex_sprog)) = Sem.OVal (Sem.VStr (97 :: 98 :: 99 :: nil)%N).
+  end /\ fst (Sem.run 10 (embed_stmts ex_names 0 nil ex_sprog)) = Sem.OVal (Sem.VStr (97 :: 98 :: 99 :: nil)%N).
 Proof.
   split; [vm_compute; reflexivity|]. split; [vm_compute; reflexivity|].
   split; vm_compute; reflexivity.
@@ -228,14 +229,41 @@ Definition ex_lprog : list stmt :=
       SExpr (SVar 0) :: nil) ::
    SExpr (SVar 1) :: nil)%list.
 Example C01_var_program_loop_example :
-  wf_stmts true false 0 ex_lprog = true /\
+  wf_stmts false 0 ex_lprog = true /\
   option_map top_result (run_stmts 6 nil ex_lprog ScalarFrag.VNil) = Some (inl (ScalarFrag.VInt 112)) /\
   run_stmts 4 nil ex_lprog ScalarFrag.VNil = None /\
-  match compile_program 10 nil (embed_stmts ex_names 0 ex_lprog) with
+  match compile_program 10 nil (embed_stmts ex_names 0 nil ex_lprog) with
   | inr (c, tabs) => match VM.run 500 c tabs 2 nil with RVal (VM.VInt z) _ => z = 112%Z | _ => False end
   | inl _ => False
-  end /\ fst (Sem.run 10 (embed_stmts ex_names 0 ex_lprog)) = Sem.OVal (Sem.VInt 112).
+  end /\ fst (Sem.run 10 (embed_stmts ex_names 0 nil ex_lprog)) = Sem.OVal (Sem.VInt 112).
 Proof.
   split; [vm_compute; reflexivity|]. split; [vm_compute; reflexivity|]. split; [vm_compute; reflexivity|].
   split; vm_compute; reflexivity.
+Qed.
+
+(* ... and with declarations inside blocks (slots: a 0, t 1, u 2, x 3; x is the SECOND visible variable where it is declared):
+     a := 1
+     for a < 4 { t := a * 2; if t > 4 { u := t + a; a = u } else { a++ }; t }
+     x := a + 1
+     x                                                                                         (= 10) *)
+Definition ex_names4 : list (list N) := ((97 :: nil) :: (116 :: nil) :: (117 :: nil) :: (120 :: nil) :: nil)%N.
+Definition ex_bprog : list stmt :=
+  (SDecl (SInt 1) ::
+   SWhile (SBin CLt (SVar 0) (SInt 4))
+     (SDecl (SBin BMul (SVar 0) (SInt 2)) ::
+      SIf (SBin CGt (SVar 1) (SInt 4)) (SDecl (SBin BAdd (SVar 1) (SVar 0)) :: SSet 0 (SVar 2) :: nil) (SInc 0 true :: nil) ::
+      SExpr (SVar 1) :: nil) ::
+   SDecl (SBin BAdd (SVar 0) (SInt 1)) ::
+   SExpr (SVar 1) :: nil)%list.
+Example C01_var_program_block_example :
+  wf_stmts false 0 ex_bprog = true /\ ndecls ex_bprog = 4%nat /\
+  option_map top_result (run_stmts 6 nil ex_bprog ScalarFrag.VNil) = Some (inl (ScalarFrag.VInt 10)) /\
+  match compile_program 10 nil (embed_stmts ex_names4 0 nil ex_bprog) with
+  | inr (c, tabs) => c = Code main_id main_id false 0 (fst (pcode ex_bprog)) (snd (pcode ex_bprog)) nil nil nil /\
+                     match VM.run 500 c tabs 4 nil with RVal (VM.VInt z) _ => z = 10%Z | _ => False end
+  | inl _ => False
+  end /\ fst (Sem.run 10 (embed_stmts ex_names4 0 nil ex_bprog)) = Sem.OVal (Sem.VInt 10).
+Proof.
+  split; [vm_compute; reflexivity|]. split; [vm_compute; reflexivity|]. split; [vm_compute; reflexivity|].
+  split; vm_compute; [split; reflexivity|reflexivity].
 Qed.
